@@ -167,90 +167,140 @@ def _refs_local(x, op, local, mut=False):
 
 
 def _typestate(x, b, applies):
-    """Forward may-analysis.  States: 0 Fresh, 1 Pending(result of the latest apply unknown), 2 Dirty."""
-    FRESH, PENDING, DIRTY = 0, 1, 2
+    """Path-sensitive forward analysis.  Abstract state = (Fresh | Dirty, valuation of tracked booleans), where the
+    tracked booleans are "the result of that apply is Ok" and the bool locals computed from them (is_ok / is_err /
+    copies / negations / constants of the short-circuit lowering).  Blocks hold *sets* of states (finite)."""
+    FRESH, DIRTY = 0, 1
     n = x.n
-    state_in = [None] * n
-    pending_res = [None] * n   # local holding the result of the pending apply
+    IN = [set() for _ in range(n)]
     bad = []
-    # block transfer
-    def transfer(bi, st, res):
-        t = x.term(bi)
-        if t.get('k') == 'call':
-            nm = short_callee(t.get('callee'))
-            if nm == 'DigitString::new' and t['dest']['l'] == b:
-                return FRESH, None
-            if nm == 'DigitString::reset' and t['args'] and _refs_local(x, t['args'][0], b):
-                return FRESH, None
-            if bi in applies:
-                return PENDING, t['dest']['l']
-        return st, res
 
-    def edge_state(bi, dst, st, res):
-        """Refine Pending on the edges of a switch over is_ok / is_err of the pending result."""
-        if st != PENDING or res is None:
-            return st, res
-        t = x.term(bi)
-        if t.get('k') != 'switch':
-            return st, res
-        sf = x.switch_facts(bi)
-        for fact in sf.get(dst, []):
-            p = untag(pretty(fact))
-            m = re.match(r'^(!?)Result::(is_ok|is_err)\((.*)\)$', p)
-            if m and _is_result_of(x, t['op'], res):
-                ok_edge = (m.group(2) == 'is_ok') != (m.group(1) == '!')
-                return (DIRTY if ok_edge else FRESH), None
-            m2 = re.match(r'^discr\((.*)\) == (Ok|Err)$', p)
-            if m2 and _is_result_of(x, t['op'], res):
-                return (DIRTY if m2.group(2) == 'Ok' else FRESH), None
-        return st, res
+    def val_get(val, l):
+        for k, v in val:
+            if k == l:
+                return v
+        return None
+
+    def val_set(val, l, v):
+        out = frozenset((k, w) for k, w in val if k != l)
+        return (out | {(l, v)}) if v is not None else out
+
+    def src_local(op):
+        """local an operand reads (through & / moves), or None"""
+        if 'pl' not in op:
+            return None
+        l = op['pl']['l']
+        for _ in range(6):
+            ds = x.whole_defs(l)
+            if len(ds) != 1 or ds[0][0] != 'assign':
+                return l
+            rv = ds[0][3]['rv']
+            if rv['k'] in ('ref', 'rawptr') and not rv['pl']['p']:
+                l = rv['pl']['l']
+            elif rv['k'] == 'copyforderef':
+                l = rv['pl']['l']
+            else:
+                return l
+        return l
+
+    def stmts(bi, states):
+        for s_ in x.blocks[bi]['stmts']:
+            if s_['k'] != 'assign' or s_['pl']['p']:
+                continue
+            dst = s_['pl']['l']
+            rv = s_['rv']
+            nxt = set()
+            for st, val in states:
+                v = None
+                if rv['k'] == 'use':
+                    o = rv['op']
+                    if o.get('k') == 'const' and o.get('ty') == 'bool':
+                        v = bool(o.get('int'))
+                    elif 'pl' in o and not o['pl']['p']:
+                        v = val_get(val, o['pl']['l'])
+                elif rv['k'] == 'un' and rv['op'] == 'Not' and 'pl' in rv['a'] and not rv['a']['pl']['p']:
+                    w = val_get(val, rv['a']['pl']['l'])
+                    v = None if w is None else (not w)
+                nxt.add((st, val_set(val, dst, v)))
+            states = nxt
+        return states
 
     work = [0]
-    state_in[0] = FRESH
-    # before the first `new`, the builder does not exist; treat as Fresh
-    iters = 0
-    while work and iters < 10000:
-        iters += 1
+    IN[0].add((FRESH, frozenset()))
+    guard = 0
+    while work and guard < 20000:
+        guard += 1
         bi = work.pop()
-        st, res = state_in[bi], pending_res[bi]
-        if bi in applies and st != FRESH:
-            why = 'a previous apply on it may have succeeded and no reset() lies in between' if st == DIRTY else \
-                  'the outcome of the previous apply on it was not tested'
-            if (bi, why) not in bad:
-                bad.append((bi, why))
-        st2, res2 = transfer(bi, st, res)
-        for dst in x.succ[bi]:
-            st3, res3 = edge_state(bi, dst, st2, res2)
-            old = state_in[dst]
-            new = st3 if old is None else max(old, st3)
-            newres = res3 if (old is None or pending_res[dst] == res3) else None
-            if new == PENDING and newres is None:
-                new = DIRTY
-            if old is None or new != old or pending_res[dst] != newres:
-                state_in[dst] = new
-                pending_res[dst] = newres
+        states = stmts(bi, set(IN[bi]))
+        t = x.term(bi)
+        k = t.get('k')
+        outs = {}
+
+        def emit(dst, st):
+            outs.setdefault(dst, set()).add(st)
+        if k == 'call':
+            nm = short_callee(t.get('callee'))
+            dst = t.get('t')
+            dl = t['dest']['l'] if not t['dest']['p'] else None
+            for st, val in states:
+                if bi in applies:
+                    if st != FRESH:
+                        why = 'a previous apply on it may have succeeded and no reset() lies in between'
+                        if (bi, why) not in bad:
+                            bad.append((bi, why))
+                    if dst is not None:
+                        emit(dst, (DIRTY, val_set(val, dl, True)))
+                        emit(dst, (st, val_set(val, dl, False)))
+                    continue
+                if nm == 'DigitString::new' and dl == b:
+                    st2, v = FRESH, None
+                elif nm == 'DigitString::reset' and t['args'] and _refs_local(x, t['args'][0], b):
+                    st2, v = FRESH, None
+                elif nm in ('Result::is_ok', 'Result::is_err') and t['args']:
+                    w = val_get(val, src_local(t['args'][0]))
+                    st2, v = st, (None if w is None else (w == (nm == 'Result::is_ok')))
+                else:
+                    st2, v = st, None
+                if dst is not None:
+                    emit(dst, (st2, val_set(val, dl, v) if dl is not None else val))
+        elif k == 'switch':
+            op = t['op']
+            l = op['pl']['l'] if 'pl' in op and not op['pl']['p'] else None
+            disc_of = None
+            if l is not None:
+                ds = x.whole_defs(l)
+                if len(ds) == 1 and ds[0][0] == 'assign' and ds[0][3]['rv']['k'] == 'discr' and not ds[0][3]['rv']['pl']['p']:
+                    disc_of = ds[0][3]['rv']['pl']['l']
+            for st, val in states:
+                w = val_get(val, l) if l is not None else None
+                taken = None
+                if isinstance(w, bool):
+                    taken = int(w)
+                elif disc_of is not None:
+                    r = val_get(val, disc_of)
+                    if r is not None:
+                        taken = 0 if r else 1
+                if taken is None:
+                    for _v, tgt in t['targets']:
+                        emit(tgt, (st, val))
+                    emit(t['otherwise'], (st, val))
+                else:
+                    tgt = next((tg for v_, tg in t['targets'] if v_ == taken), t['otherwise'])
+                    emit(tgt, (st, val))
+        else:
+            for dst in x.succ[bi]:
+                for stv in states:
+                    emit(dst, stv)
+        for dst, sts in outs.items():
+            if x.blocks[dst].get('cleanup'):
+                continue
+            new = sts - IN[dst]
+            if new:
+                IN[dst] |= new
+                if len(IN[dst]) > 4000:
+                    return [(dst, 'state explosion in the typestate analysis')]
                 work.append(dst)
     return bad
-
-
-def _is_result_of(x, op, res_local):
-    """The switched value is is_ok/is_err/discriminant computed from `res_local`."""
-    if 'pl' not in op:
-        return False
-    l = op['pl']['l']
-    ds = x.whole_defs(l)
-    if len(ds) != 1:
-        return False
-    d = ds[0]
-    if d[0] == 'call':
-        for a in d[2]['args']:
-            if _refs_local(x, a, res_local):
-                return True
-        return False
-    rv = d[3]['rv']
-    if rv['k'] == 'discr':
-        return rv['pl']['l'] == res_local
-    return False
 
 
 # ---------------------------------------------------------------------------------------
